@@ -19,6 +19,7 @@ def gen_driver(chans, path):
     L = ['#include <boost/gil.hpp>', 'using namespace boost::gil;', 'extern "C" {']
     for c in chans:
         L.append('%s w_mul_%s(%s a, %s b){ return (%s)channel_multiply(%s, %s); }' % (c.raw, c.tag, c.raw, c.raw, c.raw, c.make("a"), c.make("b")))
+        L.append('%s w_mulsw_%s(%s a, %s b){ return (%s)channel_multiply(%s, %s); }' % (c.raw, c.tag, c.raw, c.raw, c.raw, c.make("b"), c.make("a")))
         L.append('%s w_inv_%s(%s x){ return (%s)channel_invert(%s); }' % (c.raw, c.tag, c.raw, c.raw, c.make("x")))
         L.append('%s w_inv2_%s(%s x){ return (%s)channel_invert(channel_invert(%s)); }' % (c.raw, c.tag, c.raw, c.raw, c.make("x")))
     L.append('}')
@@ -61,6 +62,9 @@ def run(rep):
     rep.rule("R5 channel_multiply is a function of the symmetric product symbol only (commutative), monotone in each argument")
     rep.rule("R6 channel_multiply(a, min) == min by constant propagation")
     rep.rule("R7 channel_multiply(max,max)==max, (max,min)==min, (min,max)==min by constant propagation")
+    rep.rule("R8 exact laws of integral channels: commutativity is proved when multiply(a,b) and multiply(b,a) have the same polynomial normal form; "
+             "otherwise, and for `max is the identity`, a refutation needs a witness (operand pair found by constant propagation through the same IR); "
+             "no witness = not decided (never a pass)")
     for c in chans:
         rep.count("models")
         T = c.cxx
@@ -157,6 +161,8 @@ def run(rep):
         else:
             rep.incon("R4-mul-error", key, "no affine form")
             rep.incon("R5-symmetric", what + ":symmetric", "no affine form")
+        if c.integral:
+            exact_laws(rep, fns, c, what)
         # annihilator
         for a, other in (("a0", "a1"), ("a1", "a0")):
             key = what + ":annihilator:" + a
@@ -190,3 +196,66 @@ def run(rep):
                 rep.incon("R7-corner", key, "result %r" % (r,))
     rep.floor("models", len(chans))
     accept_inconclusive(rep, "c07_inconclusive.json")
+
+
+def exact_laws(rep, fns, c, what):
+    """R8 for an integral channel model"""
+    import itertools, random
+    from .ir.poly import PolyInterp, Unsupported as PU
+    fn, fsw = fns["w_mul_" + c.tag], fns["w_mulsw_" + c.tag]
+
+    def val(a, b, f=None):
+        it = NumInterp(f or fn, {"a0": (c.kind, c.bits, a, a), "a1": (c.kind, c.bits, b, b)})
+        r = norm_ret(it, it.run(), c)
+        return r.lo if (r is not None and not r.top and r.is_const()) else None
+    # ---- commutativity
+    key = what + ":commutative (exact)"
+    proved = False
+    try:
+        proved = PolyInterp(fn).run() == PolyInterp(fsw).run()
+    except (PU, KeyError, Exception):
+        proved = False
+    if proved:
+        rep.ok("R8-commutative", key, "multiply(a,b) and multiply(b,a) have one normal form")
+    else:
+        span = c.hi - c.lo + 1
+        if span <= 256:
+            pairs = ((a, b) for a in range(c.lo, c.hi + 1) for b in range(a + 1, c.hi + 1))
+        else:
+            rnd = random.Random(7)
+            step = max(1, span // 97)
+            grid = list(range(c.lo, c.hi + 1, step)) + [c.hi, c.hi - 1, c.lo + 1]
+            pairs = itertools.chain(((a, b) for a in grid for b in grid if a < b),
+                                    ((rnd.randint(c.lo, c.hi), rnd.randint(c.lo, c.hi)) for _ in range(20000)))
+        wit = None
+        for a, b in pairs:
+            x, y = val(a, b), val(b, a)
+            if x is not None and y is not None and x != y:
+                wit = {"a": a, "b": b, "multiply(a,b)": x, "multiply(b,a)": y}
+                break
+        if wit:
+            rep.violation("R8-commutative", key, "include/boost/gil/channel_algorithm.hpp (channel_multiplier_unsigned)",
+                          {"witness": wit, "problem": "the generic multiplier computes a / double(max) * b: the two roundings depend on the operand order, the truncated results differ for this pair"})
+        else:
+            rep.incon("R8-commutative", key, "normal forms differ (floating-point path); no witness found")
+    # ---- max is the identity
+    key = what + ":max is the identity"
+    span = c.hi - c.lo + 1
+    if span <= (65536 if rep.tier == "thorough" else 4096):
+        cand = range(c.lo, c.hi + 1)
+    else:
+        rnd = random.Random(11)
+        cand = list(range(c.lo, c.lo + 2048)) + list(range(c.hi - 2048, c.hi + 1)) + [rnd.randint(c.lo, c.hi) for _ in range(20000)]
+    wit = None
+    for a in cand:
+        for args in ((a, c.hi),):
+            x = val(*args)
+            if x is not None and x != a:
+                wit = {"a": a, "multiply(a,max)": x}
+                break
+        if wit:
+            break
+    if wit:
+        rep.violation("R8-identity", key, "include/boost/gil/channel_algorithm.hpp", {"witness": wit, "problem": "the channel maximum is not the identity of channel_multiply for this operand"})
+    else:
+        rep.incon("R8-identity", key, "no abstract proof of multiply(a,max) == a; no refuting operand found")
